@@ -85,13 +85,19 @@ def cb_case(rng, maxops):
     ops = ["freeret 0"] if rng.below(4) == 0 else []
     for _ in range(1 + rng.below(maxops)):
         r = rng.below(100)
-        k = vf.hexs(rng.choice(keys))
+        kb = rng.choice(keys)
+        k = vf.hexs(kb)
         if r < 40:
             ops.append("ins " + k)
         elif r < 60:
             ops.append(("delown " if r % 2 else "del ") + k)
-        elif r < 80:
+        elif r < 72:
             ops.append("get " + k)
+        elif r < 80:
+            # prefix of a (possibly stored) key, handed over through the stored object's own buffer;
+            # the prefix must itself be a legal key (no trailing zero byte)
+            cuts = [i for i in range(len(kb) + 1) if i == 0 or kb[i - 1] != 0]
+            ops.append(("getpfx " if r % 2 else "delpfx ") + k + " %d" % rng.choice(cuts))
         elif r < 90:
             ops.append("walk 0")
         elif r < 95:
@@ -270,7 +276,7 @@ def run(ck):
                       "bytes) for cbtree / strpool / mdict, plus all cbtree histories up to a length bound over a "
                       "small key set; a case is non-trivial when it is distinct and contains at least one mutating op")
     rng = vf.SplitMix(ck.seed)
-    nontriv = lambda c: any(l.split()[0] in ("ins", "del", "delown", "sget", "sdec", "mput", "mdel", "mdec") for l in c)
+    nontriv = lambda c: any(l.split()[0] in ("ins", "del", "delown", "delpfx", "sget", "sdec", "mput", "mdel", "mdec") for l in c)
     hist = {}
 
     def go(cases, label):
